@@ -109,7 +109,7 @@ func c10tFamilies(thorough bool) []c10tFamily {
 		}
 	}
 	sortKeys := []string{"s", "i desc", "f asc", "name", "s DESC"}
-	return []c10tFamily{
+	fams := []c10tFamily{
 		{name: "and-or-chain", sizes: chain, gen: func(n int) string { return c10tAlternate("a", []string{" and a", " or a"}, n) }},
 		{name: "or-and-chain", sizes: chain, gen: func(n int) string { return c10tAlternate("a", []string{" or b", " and not c"}, n) }},
 		{name: "and-chain", sizes: chain, gen: func(n int) string { return c10tRepeat("a", " and a", n) }},
@@ -134,6 +134,10 @@ func c10tFamilies(thorough bool) []c10tFamily {
 		{name: "dotted-path", sizes: long, gen: func(n int) string { return "xk" + strings.Repeat(".xk", n) + ".s = \"x\"" }},
 		{name: "string-literal", sizes: long, gen: func(n int) string { return `s = "` + strings.Repeat(`x\n`, n) + `"` }},
 		{name: "number", sizes: long, gen: func(n int) string { return "f = 1." + strings.Repeat("5", n) }},
+		// long dotted identifiers over CYCLES of the store link graph (c10tcFamilies below)
+	}
+	fams = append(fams, c10tcFamilies(thorough)...)
+	return append(fams, []c10tFamily{
 		{name: "noise-foreign", sizes: noise, noise: true, gen: func(n int) string { return strings.Repeat("#", n) }},
 		{name: "noise-closing", sizes: noise, noise: true, gen: func(n int) string { return strings.Repeat(")", n) }},
 		{name: "noise-opening", sizes: noise, noise: true, gen: func(n int) string { return strings.Repeat("(", n) }},
@@ -141,7 +145,93 @@ func c10tFamilies(thorough bool) []c10tFamily {
 		{name: "noise-operands", sizes: chain, noise: true, gen: func(n int) string { return c10tAlternate("", []string{"a ", "b and or ", "(a "}, n) }},
 		{name: "noise-quotes", sizes: noise, noise: true, gen: func(n int) string { return strings.Repeat(`"`, 2*n+1) }},
 		{name: "noise-brackets", sizes: noise, noise: true, gen: func(n int) string { return strings.Repeat("i in [1, ", n) }},
+	}...)
+}
+
+// c10tcFamilies: dotted identifiers of n path elements that walk a CYCLE of the link graph of the bolt-backed stores
+// (c10_store.go).  A symbol table resolves a dotted identifier element by element; how often it does so per element is
+// invisible on the paths of 2-4 elements that an acyclic schema admits (every longer one stops resolving early).  A cycle -
+// a store that links to itself, A -> B -> A, A -> B -> C -> A - lets a VALID identifier be arbitrarily long, and the
+// identifier is one token: the twins of c10tVariants that are made for it replace ONE path element (first / middle / last)
+// by a name that does not resolve, and the middle one by a symbol that exists and is no link.  The identifier stands in
+// every position that is typed against a store: operand of a comparison, argument of a set function, set expression of a
+// sub-query, sort key.  `s` and `a` exist in all three stores, so the path may end in any of them.
+//
+//	mains.xup -> mains (fk)   mains.xms -> mains (fk set)   mains.xk -> subs (fk)   subs.owners -> mains (fk set)
+//	subs.xk -> leaves (fk)    leaves.owners -> mains (fk set)
+func c10tcFamilies(thorough bool) []c10tFamily {
+	sizes := []int{2, 3, 4, 6, 8, 12, 16, 20, 24, 28, 32, 36, 40}
+	if thorough {
+		sizes = append(sizes, 48, 64, 96, 128)
 	}
+	// path of n elements: n-1 links walking the cycle, then `last`
+	path := func(cycle []string, n int, last string) string {
+		var parts []string
+		for i := 0; i < n-1; i++ {
+			parts = append(parts, cycle[i%len(cycle)])
+		}
+		return strings.Join(append(parts, last), ".")
+	}
+	// compare: the path as operand; it is a set as soon as one of its links is a fk set (index of the first one in the cycle)
+	compare := func(cycle []string, firstSet int) func(n int) string {
+		return func(n int) string {
+			p := path(cycle, n, "s")
+			if firstSet >= 0 && n-1 > firstSet {
+				return "anyOf(" + p + `) = "x"`
+			}
+			return p + ` = "x"`
+		}
+	}
+	self, selfSet, two, three := []string{"xup"}, []string{"xms"}, []string{"xk", "owners"}, []string{"xk", "xk", "owners"}
+	return []c10tFamily{
+		{name: "cyclic-path-fk-self", sizes: sizes, gen: compare(self, -1)},
+		{name: "cyclic-path-fkset-self", sizes: sizes, gen: compare(selfSet, 0)},
+		{name: "cyclic-path-two-stores", sizes: sizes, gen: compare(two, 1)},
+		{name: "cyclic-path-three-stores", sizes: sizes, gen: compare(three, 2)},
+		{name: "cyclic-path-sort-key", sizes: sizes, gen: func(n int) string {
+			return "a sort by " + path(self, n, "s") + " desc, " + path(self, n/2+1, "name") + " limit 3"
+		}},
+		{name: "cyclic-path-sub-query", sizes: sizes, gen: func(n int) string {
+			// the set expression ends in a link (n elements), the inner filter is typed against the store it leads to
+			return "count(from " + path(two, n+1, two[n%2]) + " where a and " + compare(two, 1)(n) + ") >= 0"
+		}},
+		{name: "cyclic-path-chain", sizes: sizes, gen: func(n int) string {
+			// several long identifiers in one filter
+			return path(self, n, "a") + " and " + compare(three, 2)(n) + " or isEmpty(" + path(selfSet, n, "xss") + ")"
+		}},
+	}
+}
+
+// c10tcPathVariants: twins of a text whose longest dotted identifier has one path element replaced
+func c10tcPathVariants(toks []string) (names []string, texts []string) {
+	best, dots := -1, 0
+	for k, t := range toks {
+		if d := strings.Count(t, "."); d > dots && !strings.ContainsAny(t, "\"0123456789 ") {
+			best, dots = k, d
+		}
+	}
+	if best < 0 {
+		return
+	}
+	elems := strings.Split(toks[best], ".")
+	with := func(k int, repl string) string {
+		e := append([]string{}, elems...)
+		e[k] = repl
+		t := append([]string{}, toks...)
+		t[best] = strings.Join(e, ".")
+		return strings.Join(t, "")
+	}
+	for _, p := range []struct {
+		name string
+		k    int
+	}{{"start", 0}, {"middle", len(elems) / 2}, {"end", len(elems) - 1}} {
+		names = append(names, "path-unknown-element@"+p.name)
+		texts = append(texts, with(p.k, "nosuch"))
+	}
+	// a symbol that exists in every store and is no link, in the middle and as first element
+	names = append(names, "path-scalar-element@middle", "path-scalar-element@start")
+	texts = append(texts, with(len(elems)/2, "s"), with(0, "s"))
+	return
 }
 
 // c10tVariants: the valid text and its invalid twins (variant name -> text)
@@ -172,6 +262,8 @@ func c10tVariants(valid string) (names []string, texts []string) {
 		names = append(names, "token-removed@"+p.name)
 		texts = append(texts, join(toks[:k])+join(toks[k+1:]))
 	}
+	pn, pt := c10tcPathVariants(toks)
+	names, texts = append(names, pn...), append(texts, pt...)
 	return
 }
 
